@@ -185,6 +185,12 @@ func init() {
 			return nil, err
 		}
 		res := map[string]any{"features": features(t), "gotype": t.String()}
+		optsTwin, _ := a.forOptions() // an untouched copy of the options: For must not write into the TypeSchemas it is given
+		defer func() {
+			if optsTwin != nil && len(opts.TypeSchemas) > 0 {
+				res["ts_untouched"] = reflect.DeepEqual(opts.TypeSchemas, optsTwin.TypeSchemas)
+			}
+		}()
 		// history: the same call with plain options before and after the call under test (and after any Pre calls)
 		plain := &jsonschema.ForOptions{IgnoreInvalidTypes: a.Opts.Ignore}
 		var pb0 []byte
